@@ -466,6 +466,12 @@ impl Decoder {
                 }
             };
 
+            // UE and OE hold the 32-byte file key, wrapped without padding
+            if wrapped_key.len() < 32 {
+                err!(other!("UE / OE in Encrypt dictionary should have a length of 32 bytes, not {}", wrapped_key.len()));
+            }
+            wrapped_key.truncate(32);
+
             let zero_iv = GenericArray::from_slice(&[0u8; 16]);
             let key_slice = t!(Aes256CbcDec::new(&intermediate_key, zero_iv)
                 .decrypt_padded_mut::<NoPadding>(&mut wrapped_key)
